@@ -32,6 +32,13 @@ Fixpoint tbl_find (k : str) (t : list (str * str)) : option str :=
 Definition tbl_lower (t : list (str * str)) (k : str) : str :=
   match tbl_find k t with Some l => l | None => lower k end.
 
+(* mutable values of the extracted instance: a sequence [d1; ...; dn] of digits 1..9 (a Python list, or a dict /
+   set / object used as a sequence by the harness) is the integer seq_base - (d1 ... dn read as a decimal number);
+   every other integer is an immutable value.  Appending a digit: *)
+Definition seq_base : Z := (-2000000000000000)%Z.
+Definition mut_append (x : Z) (v : Z) : option Z :=
+  if Z.leb v seq_base then Some (seq_base - ((seq_base - v) * 10 + x))%Z else None.
+
 (* the instance *)
 Definition scid := cid str Z.
 Definition scis := cis str.
